@@ -11,3 +11,12 @@ int replay_reject(const std::string &caseid);
 void prop_c11(hz::Ctx &);
 void prop_c16(hz::Ctx &);
 int replay_modes(const std::string &prop, const std::string &caseid);
+void prop_c06(hz::Ctx &);
+void prop_c12(hz::Ctx &);
+void prop_c13(hz::Ctx &);
+void prop_c14(hz::Ctx &);
+void prop_c15(hz::Ctx &);
+int replay_hist(const std::string &prop, const std::string &caseid, uint64_t seed);
+void prop_c07(hz::Ctx &);
+void prop_c08(hz::Ctx &);
+int replay_buf(const std::string &caseid);
